@@ -1,8 +1,763 @@
 import Grass.Proto
-/- Core `Module` — stub; replaced by the model (see DESIGN.md §8). -/
+/-
+  C12 core — the module system: `@use`, `@forward`, member views, configuration, loader.
+
+  Written from the Rust text (paths relative to /repo/crates/compiler/src):
+    evaluate/visitor.rs   visit_use_rule :723, visit_forward_rule :268, add_forward_configuration :343,
+                          remove_used_configuration :389, execute :550, load_module :651,
+                          assert_configuration_is_empty :765, visit_variable_decl :1973
+    evaluate/env.rs       insert_var :341, add_module :430, from_one_module :464, forward_module :241
+    builtin/modules/mod.rs ForwardedModule::forwarded_map :156, member_map :304, Module::new_env :324,
+                          update_var :402, variables/functions :483
+    utils/map_view.rs     BaseMapView :71, PrefixedMapView :133, LimitedMapView :195, MergedMapView :262,
+                          PublicMemberMapView :316
+    ast/stmt.rs           Configuration::through_forward :310, with_values :340
+    parse/stylesheet.rs   assert_public :2648 (private names behind a namespace are a syntax error)
+    common.rs             Identifier::from_str :131 (`_` ↦ `-`), is_public :139
+
+  Values are opaque tokens (`Val = Nat`), identifiers are `List Char` *after* `Identifier`
+  normalisation (`norm`).  Member bodies are trivial: a function returns a constant naming itself
+  and its module (or the current value of one of its module's variables), a mixin emits a marker.
+  Paths: a project is one directory; the canonical path of a module is its base name (the file is
+  `name.scss` or the partial `_name.scss`); a URL names a base with or without a leading `_`
+  (`./`, and an explicit `.scss` do not matter for this core — C13 owns file lookup).
+
+  Deviations of the code from the property are explicit switches (`Switches`); the theorems are
+  about `Switches.spec`, the correspondence runs against `Switches.now`.
+-/
 namespace Grass.Module
 
+abbrev Ident := List Char
+abbrev Val := Nat
+
+/-- `Identifier::from_str` (common.rs:131): underscores and hyphens are the same character. -/
+def normChar (c : Char) : Char := if c = '_' then '-' else c
+def norm (s : Ident) : Ident := s.map normChar
+
+/-- negation of `Identifier::is_public` (common.rs:139), on a normalised identifier. -/
+def isPrivate (n : Ident) : Bool := n.head? == some '-'
+
+inductive Kind where
+  | var | fn | mixin
+  deriving DecidableEq, Repr, Inhabited
+
+/-- One switch per deviation of the code from the property. `true` = behaviour as found. -/
+structure Switches where
+  /-- D7 (fixed by a `fix:` commit): `forwarded_map` ignored the show/hide lists. -/
+  ignoreLists : Bool
+  /-- map_view.rs:169 `PrefixedMapView::keys` keeps only upstream keys that already start with the
+      prefix (copy of `UnprefixedMapView::keys`), instead of prefixing every key. -/
+  prefixedKeysBug : Bool
+  /-- ast/stmt.rs:340 `Configuration::with_values` drops the span: a configuration passed through
+      `@forward` is always implicit, so a `@forward … with` below it is never checked. -/
+  fwdCfgImplicit : Bool
+  /-- map_view.rs:129/179/257 `iter()` is `unimplemented!()` for the view types used by
+      `through_forward`; visitor.rs:348 calls it. -/
+  viewIterPanics : Bool
+  /-- map_view.rs:299 `MergedMapView::insert` is `unreachable!()` for an unknown key. -/
+  mergedInsertPanics : Bool
+  deriving DecidableEq, Repr
+
+def Switches.spec : Switches := ⟨false, false, false, false, false⟩
+/-- the code as it stands in /repo now -/
+def Switches.now : Switches := ⟨false, true, true, true, true⟩
+/-- the pinned tree (before the D7 fix) -/
+def Switches.pinned : Switches := ⟨true, true, true, true, true⟩
+
+/-! ### member views (utils/map_view.rs) -/
+
+/-- Which module declared the member, and under which name. -/
+structure Origin where
+  owner : Nat
+  name  : Ident
+  deriving DecidableEq, Repr, Inhabited
+
+/-- A `MapView`: `get`, `keys()` and `!is_empty()` (the only use of `len()`). -/
+structure View where
+  get : Ident → Option Origin
+  keys : List Ident
+  nonempty : Bool
+
+def View.empty : View := ⟨fun _ => none, [], false⟩
+
+/-- `BaseMapView` over the module's own global members (private ones included). -/
+def View.base (owner : Nat) (own : List Ident) : View :=
+  ⟨fun n => if own.contains n then some ⟨owner, n⟩ else none, own, !own.isEmpty⟩
+
+/-- `PublicMemberMapView` (:316). `len` is the underlying length. -/
+def View.pub (v : View) : View :=
+  ⟨fun n => if isPrivate n then none else v.get n, v.keys.filter (fun k => !isPrivate k), v.nonempty⟩
+
+/-- `PrefixedMapView` (:133). -/
+def View.prefixed (keysBug : Bool) (v : View) (p : Ident) : View :=
+  ⟨fun n => if p.isPrefixOf n then v.get (n.drop p.length) else none,
+   (if keysBug then v.keys.filter (fun k => p.isPrefixOf k) else v.keys).map (fun k => p ++ k),
+   v.nonempty⟩
+
+/-- `LimitedMapView::safelist` (:201): the key set is fixed at construction. -/
+def View.safelist (v : View) (safe : List Ident) : View :=
+  let ks := safe.filter (fun k => (v.get k).isSome)
+  ⟨fun n => if ks.contains n then v.get n else none, ks, !ks.isEmpty⟩
+
+/-- `LimitedMapView::blocklist` (:211). -/
+def View.blocklist (v : View) (block : List Ident) : View :=
+  let ks := v.keys.filter (fun k => !block.contains k)
+  ⟨fun n => if ks.contains n then v.get n else none, ks, !ks.isEmpty⟩
+
+/-- `MergedMapView` (:262): later maps win; the key set is the union taken at construction. -/
+def View.merged (vs : List View) : View :=
+  let ks := (vs.flatMap (·.keys)).eraseDups
+  ⟨fun n => vs.reverse.findSome? (fun v => v.get n), ks, !ks.isEmpty⟩
+
+/-! ### `@forward` rules and completed modules -/
+
+/-- show/hide lists of a `@forward` (AstForwardRule, ast/stmt.rs:429): variables and
+    mixins-and-functions are separate sets; names are the *forwarded* (prefixed) names. -/
+inductive Vis where
+  | all
+  | allow (vars fns : List Ident)
+  | hide (vars fns : List Ident)
+  deriving DecidableEq, Repr, Inhabited
+
+structure FwdRule where
+  pfx : Option Ident
+  vis : Vis
+  deriving DecidableEq, Repr, Inhabited
+
+def Vis.safe (v : Vis) (k : Kind) : Option (List Ident) :=
+  match v with
+  | .allow vs fs => some (if k = .var then vs else fs)
+  | _ => none
+
+def Vis.block (v : Vis) (k : Kind) : Option (List Ident) :=
+  match v with
+  | .hide vs fs => some (if k = .var then vs else fs)
+  | _ => none
+
+/-- `ForwardedModule::forwarded_map` (mod.rs:156). -/
+def forwardedMap (sw : Switches) (k : Kind) (r : FwdRule) (v : View) : View :=
+  let v1 := match r.pfx with
+    | some p => View.prefixed sw.prefixedKeysBug v p
+    | none => v
+  if sw.ignoreLists then v1 else
+  match r.vis.safe k, r.vis.block k with
+  | some s, _ => View.safelist v1 s
+  | none, some b => if b.isEmpty then v1 else View.blocklist v1 b
+  | none, none => v1
+
+structure Fwd where
+  rule : FwdRule
+  target : Nat
+  deriving DecidableEq, Repr, Inhabited
+
+inductive FnBody where
+  | const
+  | getter (v : Ident)
+  deriving DecidableEq, Repr, Inhabited
+
+/-- A completed module (`Module::Environment`): its own global members and the modules it
+    forwards, in order (`env.forwarded_modules`). -/
+structure Mod where
+  path : Ident
+  vars : List (Ident × Val)
+  fns : List (Ident × FnBody)
+  mixins : List Ident
+  fwds : List Fwd
+  /-- `env.global_modules` of the module (`as *`): where its own functions look up free variables -/
+  globals : List Nat
+  deriving DecidableEq, Repr, Inhabited
+
+def Mod.names (m : Mod) : Kind → List Ident
+  | .var => m.vars.map (·.1)
+  | .fn => m.fns.map (·.1)
+  | .mixin => m.mixins
+
+/-- `member_map` (mod.rs:304). -/
+def memberMap (loc : View) (others : List View) : View :=
+  let l := View.pub loc
+  if others.isEmpty then l else View.merged (others.filter (·.nonempty) ++ [l])
+
+/-- `Module::scope()` of the module with id `id`.  Completed modules are kept newest first; the id
+    of a module is the number of modules completed before it, so the forwards of a module refer to
+    the tail of the list (`Module::new_env`, mod.rs:324). -/
+def scopeView (sw : Switches) (k : Kind) : List Mod → Nat → View
+  | [], _ => View.empty
+  | m :: rest, id =>
+    if id = rest.length then
+      memberMap (View.base id (m.names k))
+        (m.fwds.map fun f => forwardedMap sw k f.rule (scopeView sw k rest f.target))
+    else scopeView sw k rest id
+
+def setAssoc (l : List (Ident × Val)) (n : Ident) (v : Val) : List (Ident × Val) :=
+  if l.any (·.1 == n) then l.map (fun e => if e.1 == n then (n, v) else e) else l ++ [(n, v)]
+
+def readVar : List Mod → Nat → Ident → Option Val
+  | [], _, _ => none
+  | m :: rest, id, n => if id = rest.length then m.vars.lookup n else readVar rest id n
+
+/-- `BaseMapView::insert` on an existing key of module `id`. -/
+def setVar : List Mod → Nat → Ident → Val → List Mod
+  | [], _, _, _ => []
+  | m :: rest, id, n, v =>
+    if id = rest.length then { m with vars := setAssoc m.vars n v } :: rest
+    else m :: setVar rest id n v
+
+def modAt : List Mod → Nat → Option Mod
+  | [], _ => none
+  | m :: rest, id => if id = rest.length then some m else modAt rest id
+
+/-! ### configuration (ast/stmt.rs:302) -/
+
+inductive CfgLayer where
+  | unprefixed (p : Ident)
+  | limited (keys : List Ident)
+  deriving DecidableEq, Repr, Inhabited
+
+/-- A `Configuration`: the shared `BaseMapView` plus the view layers through which this
+    configuration sees it (innermost first), and whether it has a span (explicit). -/
+structure Cfg where
+  base : List (Ident × Val)
+  layers : List CfgLayer
+  explicit : Bool
+  deriving DecidableEq, Repr, Inhabited
+
+def Cfg.empty : Cfg := ⟨[], [], false⟩
+
+/-- the name in the base map a view name stands for (`UnprefixedMapView::get` :100,
+    `LimitedMapView::get` :224) -/
+def viaLayers : List CfgLayer → Ident → Option Ident
+  | [], n => some n
+  | .limited ks :: ls, n => if ks.contains n then viaLayers ls n else none
+  | .unprefixed p :: ls, n => viaLayers ls (p ++ n)
+
+def Cfg.get (c : Cfg) (n : Ident) : Option Val :=
+  (viaLayers c.layers n).bind (fun b => c.base.lookup b)
+
+def eraseKey (l : List (Ident × Val)) (n : Ident) : List (Ident × Val) := l.filter (fun e => e.1 != n)
+
+def Cfg.remove (c : Cfg) (n : Ident) : Option Val × Cfg :=
+  match viaLayers c.layers n with
+  | none => (none, c)
+  | some b => (c.base.lookup b, { c with base := eraseKey c.base b })
+
+def layerKeys : List CfgLayer → List Ident → List Ident
+  | [], bk => bk
+  | .limited ks :: _, _ => ks
+  | .unprefixed p :: ls, bk => ((layerKeys ls bk).filter (fun k => p.isPrefixOf k)).map (fun k => k.drop p.length)
+
+def Cfg.keys (c : Cfg) : List Ident := layerKeys c.layers (c.base.map (·.1))
+
+/-- `is_empty` = `len() == 0`; `UnprefixedMapView::len` is the underlying length (:115),
+    `LimitedMapView::len` the size of the fixed key set (:248). -/
+def layersEmpty : List CfgLayer → Bool → Bool
+  | [], b => b
+  | .limited ks :: _, _ => ks.isEmpty
+  | .unprefixed _ :: ls, b => layersEmpty ls b
+
+def Cfg.isEmpty (c : Cfg) : Bool := layersEmpty c.layers c.base.isEmpty
+
+/-- `Configuration::through_forward` (:310).  Second component: the result shares the base map
+    with the argument (removals are seen by it). -/
+def throughForward (sw : Switches) (c : Cfg) (r : FwdRule) : Cfg × Bool :=
+  if c.isEmpty then (Cfg.empty, false) else
+  let ls1 := match r.pfx with
+    | some p => CfgLayer.unprefixed p :: c.layers
+    | none => c.layers
+  let c1 : Cfg := { c with layers := ls1 }
+  let ls2 := match r.vis with
+    | .allow vs _ => CfgLayer.limited (vs.filter fun k => (c1.get k).isSome) :: ls1
+    | .hide vs _ => CfgLayer.limited (c1.keys.filter fun k => !vs.contains k) :: ls1
+    | .all => ls1
+  ({ base := c.base, layers := ls2, explicit := if sw.fwdCfgImplicit then false else c.explicit }, true)
+
+/-- `assert_configuration_is_empty` (visitor.rs:765) -/
+def Cfg.leftover (c : Cfg) : Bool := !(c.isEmpty || !c.explicit)
+
+/-! ### sources -/
+
+structure Url where
+  base : Ident
+  underscore : Bool          -- spelled with a leading `_`
+  deriving DecidableEq, Repr, Inhabited
+
+inductive UseNs where
+  | dflt | named (n : Ident) | star
+  deriving DecidableEq, Repr, Inhabited
+
+inductive Stmt where
+  /-- `$name: val [!default]` at the root -/
+  | var (name : Ident) (val : Val) (guarded : Bool)
+  | fn (name : Ident) (body : FnBody)
+  | mixin (name : Ident)
+  /-- the CSS marker rule -/
+  | css
+  /-- `@debug` marker -/
+  | dbg
+  | use (url : Url) (ns : UseNs) (cfg : List (Ident × Val))
+  | forward (url : Url) (rule : FwdRule) (cfg : List (Ident × Val × Bool))
+  /-- `ns.$name: val [!default]` -/
+  | assign (ns : Ident) (name : Ident) (val : Val) (guarded : Bool)
+  /-- member reference: `ns.$n`, `ns.n()`, `@include ns.n` or the bare forms; `guarded` wraps it in
+      `@if meta.global-variable-exists/function-exists/mixin-exists(n, ns)` -/
+  | probe (id : Nat) (guarded : Bool) (k : Kind) (ns : Option Ident) (name : Ident)
+  /-- `meta.module-variables(ns)` / `meta.module-functions(ns)` key set -/
+  | pkeys (id : Nat) (k : Kind) (ns : Ident)
+  deriving DecidableEq, Repr, Inhabited
+
+structure ModSrc where
+  name : Ident
+  partialFile : Bool
+  body : List Stmt
+  deriving DecidableEq, Repr, Inhabited
+
+abbrev Project := List ModSrc
+
+/-- `find_import` restricted to one directory (visitor.rs:809): `name` finds `name.scss` or
+    `_name.scss`; `_name` finds only the partial. -/
+def resolve (proj : Project) (u : Url) : Option ModSrc :=
+  proj.find? fun m => m.name == u.base && (!u.underscore || m.partialFile)
+
+/-- Namespaced references to private names are rejected by the parser (`assert_public`). -/
+def Stmt.privateRef : Stmt → Bool
+  | .assign _ n _ _ => isPrivate n
+  | .probe _ false _ (some _) n => isPrivate n     -- a guarded probe of a private name is an existence check only
+  | _ => false
+
+def ModSrc.parseError (m : ModSrc) : Bool := m.body.any Stmt.privateRef
+
+/-! ### evaluation -/
+
+inductive Err where
+  | moduleLoop | notFound | nsExists | noSuchNs | undefVar | undefFn | undefMixin
+  | privateAccess | withNotDefault | starConflict | panic | outOfFuel
+  deriving DecidableEq, Repr, Inhabited
+
+inductive PRes where
+  | absent
+  | val (v : Val)
+  | fn (ownerPath : Ident) (name : Ident)
+  | mixin (ownerPath : Ident) (name : Ident)
+  | plain
+  | keys (ks : List Ident)
+  deriving DecidableEq, Repr, Inhabited
+
+inductive Event where
+  | dbg (p : Ident)
+  | css (p : Ident)
+  | probe (id : Nat) (r : PRes)
+  deriving DecidableEq, Repr, Inhabited
+
+/-- Visitor state shared by all modules of one compilation. -/
+structure St where
+  /-- completed modules, newest first (`visitor.modules`, keyed by `Mod.path`) -/
+  mods : List Mod
+  /-- `visitor.active_modules` -/
+  active : List Ident
+  /-- paths whose evaluation has started, in order (ghost: what `loads_once` is about) -/
+  entered : List Ident
+  trace : List Event
+  deriving Repr, Inhabited
+
+/-- The environment of the module being evaluated. -/
+structure Env where
+  path : Ident
+  vars : List (Ident × Val)
+  fns : List (Ident × FnBody)
+  mixins : List Ident
+  fwds : List Fwd
+  /-- `env.modules`: namespace ↦ module -/
+  nss : List (Ident × Nat)
+  /-- `env.global_modules` (`as *`) -/
+  globals : List Nat
+  deriving Repr, Inhabited
+
+def Env.new (p : Ident) : Env := ⟨p, [], [], [], [], [], []⟩
+
+def Env.toMod (e : Env) : Mod := ⟨e.path, e.vars, e.fns, e.mixins, e.fwds, e.globals⟩
+
+structure Out (α : Type) where
+  st : St
+  res : Except Err α
+
+def St.emit (st : St) (e : Event) : St := { st with trace := st.trace ++ [e] }
+def St.withMods (st : St) (ms : List Mod) : St := { st with mods := ms }
+
+/-- `from_one_module` over `global_modules` (env.rs:489): the last module that has it wins. -/
+def fromGlobals (sw : Switches) (k : Kind) (ms : List Mod) (globals : List Nat) (n : Ident) : Option Origin :=
+  globals.reverse.findSome? fun g => (scopeView sw k ms g).get n
+
+def findLoaded : List Mod → Ident → Option Nat
+  | [], _ => none
+  | m :: rest, p => if m.path == p then some rest.length else findLoaded rest p
+
+def pathOf (ms : List Mod) (id : Nat) : Ident :=
+  match modAt ms id with
+  | some m => m.path
+  | none => []
+
+/-- `$v` evaluated in the environment of a module: own globals first, then its global modules
+    (env.rs:329) -/
+def envVar (sw : Switches) (ms : List Mod) (vars : List (Ident × Val)) (globals : List Nat) (v : Ident) : PRes :=
+  match vars.lookup v with
+  | some x => .val x
+  | none =>
+    match fromGlobals sw .var ms globals v with
+    | some o => match readVar ms o.owner o.name with
+      | some x => .val x
+      | none => .absent
+    | none => .absent
+
+/-- value of a function call: a constant naming the function, or a variable of its module -/
+def callFn (sw : Switches) (ms : List Mod) (o : Origin) : PRes :=
+  match modAt ms o.owner with
+  | none => .absent
+  | some m =>
+    match m.fns.lookup o.name with
+    | some (.getter v) => envVar sw ms m.vars m.globals v
+    | _ => .fn m.path o.name
+
+/-- `insert_var` at the root without a namespace (env.rs:356). -/
+def insertRoot (sw : Switches) (env : Env) (st : St) (n : Ident) (v : Val) : Env × St :=
+  if env.vars.any (·.1 == n) then ({ env with vars := setAssoc env.vars n v }, st) else
+  match fromGlobals sw .var st.mods env.globals n with
+  | some o => (env, st.withMods (setVar st.mods o.owner o.name v))
+  | none => ({ env with vars := setAssoc env.vars n v }, st)
+
+def undefErr : Kind → Err
+  | .var => .undefVar | .fn => .undefFn | .mixin => .undefMixin
+
+def resOf (sw : Switches) (ms : List Mod) (k : Kind) (o : Origin) : PRes :=
+  match k with
+  | .var => match readVar ms o.owner o.name with
+    | some v => .val v
+    | none => .absent
+  | .fn => callFn sw ms o
+  | .mixin => .mixin (pathOf ms o.owner) o.name
+
+/-- a member reference from the module being evaluated -/
+def lookupMember (sw : Switches) (env : Env) (st : St) (k : Kind) (ns : Option Ident) (n : Ident) :
+    Except Err (Option PRes) :=
+  match ns with
+  | some s =>
+    match env.nss.lookup s with
+    | none => .error .noSuchNs
+    | some id => .ok (((scopeView sw k st.mods id).get n).map (resOf sw st.mods k))
+  | none =>
+    -- own scope first, then the global modules (env.rs:267/298/329)
+    let own : Option PRes := match k with
+      | .var => (env.vars.lookup n).map .val
+      | .fn => (env.fns.lookup n).map fun b => match b with
+        | .getter v => envVar sw st.mods env.vars env.globals v
+        | .const => .fn env.path n
+      | .mixin => if env.mixins.contains n then some (.mixin env.path n) else none
+    match own with
+    | some r => .ok (some r)
+    | none => .ok ((fromGlobals sw k st.mods env.globals n).map (resOf sw st.mods k))
+
+abbrev LoadF := Url → Cfg → St → Out (Nat × Cfg)
+
+/-- `remove_used_configuration` (visitor.rs:389) -/
+def removeUsed (upstream downstream : Cfg) (except_ : List Ident) : Cfg :=
+  let dk := downstream.keys
+  (upstream.keys.filter fun n => !except_.contains n && !dk.contains n).foldl
+    (fun c n => (c.remove n).2) upstream
+
+/-- `add_forward_configuration` (visitor.rs:343), without the panic case. -/
+def addForwardCfg (adj : Cfg) (cfg : List (Ident × Val × Bool)) : Cfg × Cfg :=
+  let start : List (Ident × Val) := adj.keys.filterMap fun k => (adj.get k).map fun v => (k, v)
+  let r := cfg.foldl (fun (acc : Cfg × List (Ident × Val)) e =>
+      let (adj, nv) := acc
+      if e.2.2 then
+        match adj.remove e.1 with
+        | (some old, adj') => (adj', setAssoc nv e.1 old)
+        | (none, adj') => (adj', setAssoc nv e.1 e.2.1)
+      else (adj, setAssoc nv e.1 e.2.1)) (adj, start)
+  -- explicit iff the incoming configuration is explicit or (now, after the guarded removals) empty
+  (r.1, { base := r.2, layers := [], explicit := r.1.explicit || r.1.isEmpty })
+
+def step (sw : Switches) (loadF : LoadF) (s : Stmt) (env : Env) (cfg : Cfg) (st : St) : Out (Env × Cfg) :=
+  match s with
+  | .var n v guarded =>
+    if guarded then
+      match cfg.remove n with
+      | (some cv, cfg') => let (env', st') := insertRoot sw env st n cv; ⟨st', .ok (env', cfg')⟩
+      | (none, cfg') =>
+        if env.vars.any (·.1 == n) then ⟨st, .ok (env, cfg')⟩
+        else let (env', st') := insertRoot sw env st n v; ⟨st', .ok (env', cfg')⟩
+    else let (env', st') := insertRoot sw env st n v; ⟨st', .ok (env', cfg)⟩
+  | .fn n b => ⟨st, .ok ({ env with fns := env.fns.filter (·.1 != n) ++ [(n, b)] }, cfg)⟩
+  | .mixin n => ⟨st, .ok ({ env with mixins := if env.mixins.contains n then env.mixins else env.mixins ++ [n] }, cfg)⟩
+  | .css => ⟨st.emit (.css env.path), .ok (env, cfg)⟩
+  | .dbg => ⟨st.emit (.dbg env.path), .ok (env, cfg)⟩
+  | .use url ns withs =>
+    let c0 : Cfg := if withs.isEmpty then Cfg.empty else ⟨withs, [], true⟩
+    let o := loadF url c0 st
+    match o.res with
+    | .error e => ⟨o.st, .error e⟩
+    | .ok (id, c1) =>
+      -- `add_module` (env.rs:430)
+      let added : Except Err Env := match ns with
+        | .star =>
+          if env.vars.any (fun e => ((scopeView sw .var o.st.mods id).get e.1).isSome) then .error .starConflict
+          else .ok { env with globals := env.globals ++ [id] }
+        | .named n => if env.nss.any (·.1 == n) then .error .nsExists else .ok { env with nss := env.nss ++ [(n, id)] }
+        | .dflt => if env.nss.any (·.1 == url.base) then .error .nsExists else .ok { env with nss := env.nss ++ [(url.base, id)] }
+      match added with
+      | .error e => ⟨o.st, .error e⟩
+      | .ok env' => if c1.leftover then ⟨o.st, .error .withNotDefault⟩ else ⟨o.st, .ok (env', cfg)⟩
+  | .forward url rule withs =>
+    let (adj, shared) := throughForward sw cfg rule
+    if withs.isEmpty then
+      let o := loadF url adj st
+      match o.res with
+      | .error e => ⟨o.st, .error e⟩
+      | .ok (id, adj') =>
+        let cfg' := if shared then { cfg with base := adj'.base } else cfg
+        ⟨o.st, .ok ({ env with fwds := env.fwds ++ [⟨rule, id⟩] }, cfg')⟩
+    else
+      if sw.viewIterPanics && !adj.layers.isEmpty then ⟨st, .error .panic⟩ else
+      let (adj1, newCfg) := addForwardCfg adj withs
+      let o := loadF url newCfg st
+      match o.res with
+      | .error e => ⟨o.st, .error e⟩
+      | .ok (id, new1) =>
+        let env' := { env with fwds := env.fwds ++ [⟨rule, id⟩] }
+        let adj2 := removeUsed adj1 new1 ((withs.filter fun e => !e.2.2).map (·.1))
+        let names := withs.map (·.1)
+        let new2 : Cfg := { new1 with base := new1.base.filter fun e => names.contains e.1 }
+        let cfg' := if shared then { cfg with base := adj2.base } else cfg
+        if new2.leftover then ⟨o.st, .error .withNotDefault⟩ else ⟨o.st, .ok (env', cfg')⟩
+  | .assign ns n v guarded =>
+    match env.nss.lookup ns with
+    | none => ⟨st, .error .noSuchNs⟩
+    | some id =>
+      match (scopeView sw .var st.mods id).get n with
+      | some o => if guarded then ⟨st, .ok (env, cfg)⟩ else ⟨st.withMods (setVar st.mods o.owner o.name v), .ok (env, cfg)⟩
+      | none =>
+        -- `update_var` (mod.rs:402): `MergedMapView::insert` of an unknown key is `unreachable!()`
+        let merged := match modAt st.mods id with
+          | some m => !m.fwds.isEmpty
+          | none => false
+        ⟨st, .error (if sw.mergedInsertPanics && merged then .panic else .undefVar)⟩
+  | .probe pid guarded k ns n =>
+    match lookupMember sw env st k ns n with
+    | .error e => ⟨st, .error e⟩
+    | .ok (some r) => ⟨st.emit (.probe pid r), .ok (env, cfg)⟩
+    | .ok none =>
+      if guarded then ⟨st.emit (.probe pid .absent), .ok (env, cfg)⟩
+      else if k = .fn && ns.isNone then ⟨st.emit (.probe pid .plain), .ok (env, cfg)⟩   -- unknown bare function = plain CSS
+      else ⟨st, .error (undefErr k)⟩
+  | .pkeys pid k ns =>
+    match env.nss.lookup ns with
+    | none => ⟨st, .error .noSuchNs⟩
+    | some id =>
+      -- `Module::variables` / `functions` (mod.rs:483): `iter()` over the key set, minus private names
+      let ks := ((scopeView sw k st.mods id).keys.filter fun x => !isPrivate x)
+      ⟨st.emit (.probe pid (.keys ks)), .ok (env, cfg)⟩
+
+def evalStmts (sw : Switches) (loadF : LoadF) : List Stmt → Env → Cfg → St → Out (Env × Cfg)
+  | [], env, cfg, st => ⟨st, .ok (env, cfg)⟩
+  | s :: rest, env, cfg, st =>
+    let o := step sw loadF s env cfg st
+    match o.res with
+    | .error e => ⟨o.st, .error e⟩
+    | .ok (env', cfg') => evalStmts sw loadF rest env' cfg' o.st
+
+/-- `load_module` (visitor.rs:651) + `execute` (:550) for a user module.  `cfg` is the
+    configuration in effect while the module body runs; the remaining configuration is returned.
+    Fuel bounds the nesting depth of module evaluations only (`C12_fuel_suffices`). -/
+def load (sw : Switches) (proj : Project) : Nat → LoadF
+  | 0 => fun _ _ st => ⟨st, .error .outOfFuel⟩
+  | fuel + 1 => fun url cfg st =>
+    match resolve proj url with
+    | none => ⟨st, .error .notFound⟩
+    | some src =>
+      if src.parseError then ⟨st, .error .privateAccess⟩ else
+      if st.active.contains src.name then ⟨st, .error .moduleLoop⟩ else
+      match findLoaded st.mods src.name with
+      | some id => ⟨st, .ok (id, cfg)⟩
+      | none =>
+        let st1 : St := { st with active := src.name :: st.active, entered := st.entered ++ [src.name] }
+        let o := evalStmts sw (load sw proj fuel) src.body (Env.new src.name) cfg st1
+        match o.res with
+        | .error e => ⟨o.st, .error e⟩
+        | .ok (env, cfg') =>
+          ⟨{ o.st with mods := env.toMod :: o.st.mods, active := o.st.active.erase src.name },
+           .ok (o.st.mods.length, cfg')⟩
+
+/-- Compile the project from `entry` (`from_path`). -/
+def run (sw : Switches) (proj : Project) (entry : Ident) : Out Unit :=
+  match proj.find? (fun m => m.name == entry) with
+  | none => ⟨⟨[], [], [], []⟩, .error .notFound⟩
+  | some src =>
+    let st0 : St := ⟨[], [entry], [entry], []⟩
+    if src.parseError then ⟨⟨[], [], [], []⟩, .error .privateAccess⟩ else
+    let o := evalStmts sw (load sw proj (proj.length + 1)) src.body (Env.new entry) Cfg.empty st0
+    match o.res with
+    | .error e => ⟨o.st, .error e⟩
+    | .ok _ => ⟨o.st, .ok ()⟩
+
+/-! ### the per-input property predicates P̂ (used by the theorems and, through the driver, on
+    the implementation's own observations) -/
+
+/-- every module evaluated at most once, every marker emitted at most once -/
+def onceOK (enters : List Ident) (css : List Ident) : Bool :=
+  decide enters.Nodup && decide css.Nodup
+
+def cssOf (t : List Event) : List Ident := t.filterMap fun e => match e with | .css p => some p | _ => none
+def dbgOf (t : List Event) : List Ident := t.filterMap fun e => match e with | .dbg p => some p | _ => none
+
+/-- what a `@forward` rule lets through for one kind: the forwarded (prefixed) name is allowed -/
+def FwdRule.allows (r : FwdRule) (k : Kind) (n : Ident) : Bool :=
+  match r.vis.safe k, r.vis.block k with
+  | some s, _ => s.contains n
+  | none, some b => !b.contains n
+  | none, none => true
+
+/-- `prefix ∘ filter(show/hide)` of an upstream `get` — the specification of a forward view -/
+def fwdSpecGet (r : FwdRule) (k : Kind) (up : Ident → Option Origin) (n : Ident) : Option Origin :=
+  if r.allows k n then
+    match r.pfx with
+    | some p => if p.isPrefixOf n then up (n.drop p.length) else none
+    | none => up n
+  else none
+
+/-! ### driver -/
+
+open Grass.Proto
+
+def showId (s : Ident) : String := if s.isEmpty then "-" else String.ofList s
+
+def errStr : Err → String
+  | .moduleLoop => "moduleLoop" | .notFound => "notFound" | .nsExists => "nsExists"
+  | .noSuchNs => "noSuchNs" | .undefVar => "undefVar" | .undefFn => "undefFn"
+  | .undefMixin => "undefMixin" | .privateAccess => "privateAccess"
+  | .withNotDefault => "withNotDefault" | .starConflict => "starConflict" | .panic => "panic"
+  | .outOfFuel => "outOfFuel"
+
+def presStr : PRes → String
+  | .absent => "absent"
+  | .val v => s!"v{v}"
+  | .fn p n => s!"f:{showId p}:{showId n}"
+  | .mixin p n => s!"x:{showId p}:{showId n}"
+  | .plain => "plain"
+  | .keys ks => "k:" ++ ",".intercalate (ks.map showId)
+
+def eventStr : Event → String
+  | .dbg p => s!"D:{showId p}"
+  | .css p => s!"C:{showId p}"
+  | .probe i r => s!"P{i}={presStr r}"
+
+def rdId (s : String) : Ident := if s == "-" then [] else norm s.toList
+def rdIds (s : String) : List Ident := if s == "-" then [] else (s.splitOn ",").map rdId
+def rdKind (s : String) : Option Kind :=
+  if s == "v" then some .var else if s == "f" then some .fn else if s == "m" then some .mixin else none
+def rdUrl (s : String) : Url :=
+  if s.startsWith "_" then ⟨norm (s.drop 1).toString.toList, true⟩ else ⟨norm s.toList, false⟩
+def rdVis (s : String) : Option Vis :=
+  match s.splitOn ":" with
+  | ["A"] => some .all
+  | ["S", vs, fs] => some (.allow (rdIds vs).eraseDups (rdIds fs).eraseDups)
+  | ["H", vs, fs] => some (.hide (rdIds vs).eraseDups (rdIds fs).eraseDups)
+  | _ => none
+
+def rdPairs : Nat → List String → Option (List (Ident × Val) × List String)
+  | 0, ts => some ([], ts)
+  | n + 1, a :: b :: ts => do
+    let v ← b.toNat?
+    let (r, ts') ← rdPairs n ts
+    pure ((rdId a, v) :: r, ts')
+  | _, _ => none
+
+def rdTriples : Nat → List String → Option (List (Ident × Val × Bool) × List String)
+  | 0, ts => some ([], ts)
+  | n + 1, a :: b :: c :: ts => do
+    let v ← b.toNat?
+    let g ← parseBool? c
+    let (r, ts') ← rdTriples n ts
+    pure ((rdId a, v, g) :: r, ts')
+  | _, _ => none
+
+/-- one statement from the token stream; prefix strings are *not* normalised (`String` in the AST) -/
+def rdStmt : List String → Option (Stmt × List String)
+  | "V" :: n :: v :: g :: ts => do pure (.var (rdId n) (← v.toNat?) (← parseBool? g), ts)
+  | "F" :: n :: b :: ts => some (.fn (rdId n) (if b == "-" then .const else .getter (rdId b)), ts)
+  | "X" :: n :: ts => some (.mixin (rdId n), ts)
+  | "C" :: ts => some (.css, ts)
+  | "D" :: ts => some (.dbg, ts)
+  | "U" :: u :: ns :: k :: ts => do
+    let k ← k.toNat?
+    let (ps, ts') ← rdPairs k ts
+    let ns := if ns == "=" then UseNs.dflt else if ns == "*" then .star else .named (rdId ns)
+    pure (.use (rdUrl u) ns ps, ts')
+  | "W" :: u :: p :: vis :: k :: ts => do
+    let k ← k.toNat?
+    let vis ← rdVis vis
+    let (ps, ts') ← rdTriples k ts
+    pure (.forward (rdUrl u) ⟨if p == "-" then none else some p.toList, vis⟩ ps, ts')
+  | "A" :: ns :: n :: v :: g :: ts => do pure (.assign (rdId ns) (rdId n) (← v.toNat?) (← parseBool? g), ts)
+  | "P" :: i :: g :: k :: ns :: n :: ts => do
+    pure (.probe (← i.toNat?) (← parseBool? g) (← rdKind k) (if ns == "-" then none else some (rdId ns)) (rdId n), ts)
+  | "K" :: i :: k :: ns :: ts => do pure (.pkeys (← i.toNat?) (← rdKind k) (rdId ns), ts)
+  | _ => none
+
+def rdStmts : Nat → List String → Option (List Stmt × List String)
+  | 0, ts => some ([], ts)
+  | n + 1, ts => do
+    let (s, ts1) ← rdStmt ts
+    let (r, ts2) ← rdStmts n ts1
+    pure (s :: r, ts2)
+
+def rdMods : Nat → List String → Option (Project × List String)
+  | 0, ts => some ([], ts)
+  | n + 1, "M" :: name :: part :: k :: ts => do
+    let k ← k.toNat?
+    let p ← parseBool? part
+    let (ss, ts1) ← rdStmts k ts
+    let (r, ts2) ← rdMods n ts1
+    pure (⟨rdId name, p, ss⟩ :: r, ts2)
+  | _, _ => none
+
+def rdSwitches (s : String) : Option Switches :=
+  if s == "spec" then some .spec else if s == "now" then some .now else if s == "pinned" then some .pinned
+  else if s == "only:ignoreLists" then some { Switches.spec with ignoreLists := true }
+  else if s == "only:prefixedKeysBug" then some { Switches.spec with prefixedKeysBug := true }
+  else if s == "only:fwdCfgImplicit" then some { Switches.spec with fwdCfgImplicit := true }
+  else if s == "only:viewIterPanics" then some { Switches.spec with viewIterPanics := true }
+  else if s == "only:mergedInsertPanics" then some { Switches.spec with mergedInsertPanics := true }
+  else none
+
+/-- names must be distinct per module and kind, module names distinct: what the generator promises -/
+def Project.wf (p : Project) : Bool := decide (p.map (·.name)).Nodup
+
+def outStr (o : Out Unit) : String :=
+  let evs := " ".intercalate (o.st.trace.map eventStr)
+  let ent := ",".intercalate (o.st.entered.map showId)
+  let once := boolStr (onceOK o.st.entered (cssOf o.st.trace))
+  match o.res with
+  | .ok _ => s!"ok once={once} entered={ent} | {evs}"
+  | .error e => s!"err {errStr e} once={once} entered={ent} | {evs}"
+
 def handle : List String → String
+  -- run <switches> <entry> <nmods> M …
+  | "run" :: sw :: entry :: n :: ts =>
+    match rdSwitches sw, n.toNat? with
+    | some sw, some n =>
+      match rdMods n ts with
+      | some (proj, []) => if proj.wf then outStr (run sw proj (rdId entry)) else "unsupported"
+      | _ => "bad-op"
+    | _, _ => "bad-op"
+  -- once <enters,…> <css,…>: P̂ of loads-once on observed lists
+  | ["once", a, b] => "ok " ++ boolStr (onceOK (rdIds a) (rdIds b))
+  -- private <name>: is the (raw) name private after normalisation
+  | ["private", n] => "ok " ++ boolStr (isPrivate (rdId n))
+  -- allows <pfx> <vis> <kind> <name>: does the rule let the forwarded name through
+  | ["allows", p, vis, k, n] =>
+    match rdVis vis, rdKind k with
+    | some vis, some k =>
+      let r : FwdRule := ⟨if p == "-" then none else some p.toList, vis⟩
+      "ok " ++ boolStr (r.allows k (rdId n) && (match r.pfx with | some p => p.isPrefixOf (rdId n) | none => true))
+    | _, _ => "bad-op"
   | _ => "bad-op"
 
 end Grass.Module
